@@ -86,3 +86,7 @@ def cases(tier, seed, ctx=None):
     # the downstream connection under back-pressure when the response ends: 12 MiB to a client that reads slowly through a small
     # window, closed as soon as it was written - all of it arrives (family tlsraw, the transport path every relayed body takes)
     yield ("tlsraw", [b"GET /bighuge HTTP/1.1\r\nHost: h\r\n\r\n", 0, 0, [], 1, 0, 6], "downstream-back-pressure-at-the-end")
+    # an upstream response head of a little more than 16 KiB (many header lines) arriving in two pieces: relayed as it is
+    lines = b"".join(b"X-%d: %s\r\n" % (i, b"c" * 60) for i in range(250))
+    stream = b"HTTP/1.1 200 OK\r\n" + lines + b"Content-Length: 2\r\n\r\nok"
+    yield ("proxy", [REQ, [], 0, [[0, stream[:16500]], [0, stream[16500:]], [1]], 0, env, [13]], "upstream-head-over-16-KiB")
